@@ -829,8 +829,181 @@ def r7_moved_file_counted_once(repo=None):
     return r
 
 
+def r8_events_batches_and_rescan(repo=None):
+    """'Its bookkeeping always equals the truth about the files it tracks ... including re-scans of files already on disk':
+    (a) wiring - created / deleted / modified events reach add_files / remove_files / modify_files with the event's source path, and
+    each batch call hands every path (its record, for add / modify) to the matching hook: the loop over the records has no
+    filter but `is not None`, no break, no early return; (b) the re-scan after an observer restart compares the tracked set A
+    with the files on disk B (set algebra over the three regions A-only, B-only, both, evaluated by truth table): what is
+    removed is exactly A - B (a file that is on disk is never dropped from the books, a vanished one always is), what is added
+    covers B - A and lies in B, what is re-examined covers A & B."""
+    r = Rule("C16.R8", "events and batch calls reach the hooks for every path; the re-scan removes A - B, adds B - A, re-examines A & B")
+    ro = rbroles.roles(repo)
+    m = ro.m
+    # (a) events -> batch calls
+    for ev, batch in (("on_created", "add_files"), ("on_deleted", "remove_files"), ("on_modified", "modify_files")):
+        q = "%s.%s" % (BASE, ev)
+        if q not in m.functions:
+            raise AnalysisError("%s not found" % q)
+        f = m.fn(q)
+        calls = [c for c in ast.walk(f) if isinstance(c, ast.Call) and pyfront.call_name(c) == "self." + batch and c.args
+                 and any(isinstance(x, ast.Attribute) and x.attr == "src_path" for x in ast.walk(c.args[0]))]
+        body = [x for x in f.body if not (isinstance(x, ast.Expr) and isinstance(x.value, ast.Constant))]
+        if len(calls) == 1 and len(body) == 1 and isinstance(body[0], ast.Expr) and body[0].value is calls[0]:
+            r.ok("%s:%s %s" % (m.rel, f.lineno, q), "hands event.src_path to %s, unconditionally" % batch)
+        elif not calls and any(isinstance(c, ast.Call) and (pyfront.call_name(c) or "").startswith("self.") for c in ast.walk(f)):
+            raise AnalysisError("%s: how the event reaches %s was not recognised" % (q, batch))
+        elif not calls:
+            r.violation(m.rel, q, "no call of self.%s(event.src_path)" % batch, "the event never reaches the bookkeeping", line=f.lineno)
+        else:
+            raise AnalysisError("%s: the call of %s is conditional or not the only statement" % (q, batch))
+    hooks = {"add_files": ro.add_record, "modify_files": ro.modify, "remove_files": ro.remove_record}
+    for batch, hook in hooks.items():
+        q = "%s.%s" % (BASE, batch)
+        f = m.fn(q)
+        loops = [lp for lp in ast.walk(f) if isinstance(lp, ast.For) and any(
+            isinstance(c, ast.Call) and pyfront.call_name(c) == "self." + hook for c in ast.walk(lp))]
+        if len(loops) != 1:
+            raise AnalysisError("%s: loop calling self.%s not found exactly once (%d)" % (q, hook, len(loops)))
+        lp = loops[0]
+        leaves = [x for x in ast.walk(lp) if isinstance(x, (ast.Break, ast.Continue, ast.Return, ast.If))]
+        filters = [g_ for x in ast.walk(f) if isinstance(x, (ast.GeneratorExp, ast.ListComp)) for g_ in x.generators for t_ in g_.ifs
+                   if not (isinstance(t_, ast.Compare) and len(t_.ops) == 1 and isinstance(t_.ops[0], ast.IsNot)
+                           and isinstance(t_.comparators[0], ast.Constant) and t_.comparators[0].value is None)]
+        sliced = [x for x in ast.walk(f) if isinstance(x, ast.Subscript) and isinstance(x.slice, ast.Slice)]
+        site = "%s:%s %s" % (m.rel, lp.lineno, q)
+        if leaves or filters or sliced:
+            bad = (leaves or filters or sliced)[0]
+            r.violation(m.rel, q, "`%s` in the batch loop" % norm(ast.unparse(bad))[:60], "not every path of the batch reaches self.%s: the "
+                        "books miss files that exist (or keep files that are gone)" % hook, line=getattr(bad, "lineno", lp.lineno))
+        else:
+            r.ok(site, "every path (every record that could be built) is handed to self.%s" % hook)
+    # (b) the re-scan
+    cls = "DigitalRFRingbuffer"
+    cands = [n for n, fn in m.methods(cls).items() if sum(1 for c in ast.walk(fn) if isinstance(c, ast.Call) and isinstance(c.func, ast.Attribute)
+             and c.func.attr in ("add_files", "remove_files", "modify_files")) == 3]
+    if len(cands) != 1:
+        raise AnalysisError("%s: the re-scan method (calling add_files, remove_files and modify_files) was not found exactly once (%s)" % (cls, cands))
+    q = "%s.%s" % (cls, cands[0])
+    f = m.fn(q)
+    params = [a.arg for a in f.args.args if a.arg != "self"]
+    env = {}
+    if len(params) != 1:
+        raise AnalysisError("%s: expected one parameter (the tracked set)" % q)
+    A = params[0]
+    B = None
+
+    def sets(e, depth=0):
+        """(in A-only, in B-only, in both) membership of the set expression e; None if not a set expression over A and B"""
+        if isinstance(e, ast.Name):
+            if e.id == A:
+                return (True, False, True)
+            if e.id == B:
+                return (False, True, True)
+            if e.id in env and depth < 6:
+                return sets(env[e.id], depth + 1)
+            return None
+        if isinstance(e, ast.Call) and pyfront.call_name(e) in ("set", "frozenset", "sorted", "list") and len(e.args) == 1:
+            return sets(e.args[0], depth + 1)
+        if isinstance(e, ast.BinOp) and isinstance(e.op, (ast.Sub, ast.BitAnd, ast.BitOr)):
+            l_, r_ = sets(e.left, depth + 1), sets(e.right, depth + 1)
+            if l_ is None or r_ is None:
+                return None
+            if isinstance(e.op, ast.Sub):
+                return tuple(a and not b for a, b in zip(l_, r_))
+            if isinstance(e.op, ast.BitAnd):
+                return tuple(a and b for a, b in zip(l_, r_))
+            return tuple(a or b for a, b in zip(l_, r_))
+        if isinstance(e, ast.Call) and isinstance(e.func, ast.Attribute) and e.func.attr in ("difference", "intersection", "union") and len(e.args) == 1:
+            l_, r_ = sets(e.func.value, depth + 1), sets(e.args[0], depth + 1)
+            if l_ is None or r_ is None:
+                return None
+            op = e.func.attr
+            return tuple((a and not b) if op == "difference" else (a and b) if op == "intersection" else (a or b) for a, b in zip(l_, r_))
+        return None
+    for st in f.body:
+        if isinstance(st, ast.Assign) and len(st.targets) == 1 and isinstance(st.targets[0], ast.Name):
+            v = st.value
+            inner = v.args[0] if isinstance(v, ast.Call) and pyfront.call_name(v) in ("set", "frozenset") and len(v.args) == 1 else v
+            if isinstance(inner, ast.Call) and (pyfront.call_name(inner) or "").startswith("self.") and B is None and sets(v) is None:
+                B = st.targets[0].id          # the files on disk: the result of the handler-filtered listing (R6)
+            else:
+                env[st.targets[0].id] = v
+    if B is None:
+        raise AnalysisError("%s: the set of files on disk was not recognised" % q)
+    want = {"remove_files": ("removed", lambda t: t == (True, False, False), "exactly the tracked files that are not on disk (A - B)"),
+            "add_files": ("added", lambda t: t[1] and not t[0], "every file on disk that is not tracked (covers B - A, inside B)"),
+            "modify_files": ("re-examined", lambda t: t[2] and not t[0], "every tracked file that is on disk (covers A & B, inside B)")}
+    for c in ast.walk(f):
+        if isinstance(c, ast.Call) and isinstance(c.func, ast.Attribute) and c.func.attr in want and c.args:
+            what, pred, descr = want[c.func.attr]
+            t = sets(c.args[0])
+            site = "%s:%s %s `%s`" % (m.rel, c.lineno, q, norm(ast.unparse(c))[:70])
+            if t is None:
+                raise AnalysisError("%s: the argument of %s is not a set expression over the tracked set and the files on disk" % (q, c.func.attr))
+            if pred(t):
+                r.ok(site, "%s: %s" % (what, descr))
+            else:
+                r.violation(m.rel, q, norm(ast.unparse(c))[:70], "after a restart of the observer the set that is %s is not %s (membership for "
+                            "tracked-only / on-disk-only / both: %s): the books keep files that are gone, drop files that exist, or miss "
+                            "files that appeared while no observer was running" % (what, descr, t), line=c.lineno)
+    r.guard(9)
+    return r
+
+
+def r9_restat_replaces_the_record(repo=None):
+    """'Its bookkeeping always equals the truth about the files it tracks (... total size)': when a tracked file is reported again,
+    the record made from the fresh stat replaces the old one and the total is corrected by the difference - whatever the two sizes
+    are.  In the size mixin's modify hook, once the delegate has said "the record exists" (not handled), no test other than the
+    delegate's own answer may stand between that point and the replacement: a size comparison there (files only grow ...)
+    leaves a shrunk or replaced file at its old size, the total too high, and files are expired although no limit is exceeded."""
+    r = Rule("C16.R9", "a re-reported tracked file's new record and size replace the old ones unconditionally (size mixin, modify hook)")
+    ro = rbroles.roles(repo)
+    m = ro.m
+    q = "%s.%s" % (ro.size_mixin, ro.modify)
+    f = m.fn(q)
+    g = m.cfg(q)
+    sup = [n for n in g.nodes if any(pyfront.call_name(c) == "super()." + ro.modify or (pyfront.call_name(c) or "").endswith("." + ro.modify) and "super" in (pyfront.call_name(c) or "")
+                                     for c in pyfront.node_calls(n))]
+    stores = [n for n in g.nodes if isinstance(n.ast, ast.Assign) and any(
+        isinstance(t, ast.Subscript) and norm(ast.unparse(t.value)) == "self.records" for t in n.ast.targets)]
+    upd = [n for n in g.nodes if isinstance(n.ast, (ast.AugAssign, ast.Assign)) and "self.active_size" in norm(ast.unparse(
+        n.ast.target if isinstance(n.ast, ast.AugAssign) else n.ast.targets[0]))]
+    if len(sup) != 1 or not stores or not upd:
+        raise AnalysisError("%s: delegate call / record store / size update not found" % q)
+    flag = None
+    if isinstance(sup[0].ast, ast.Assign) and isinstance(sup[0].ast.targets[0], ast.Name):
+        flag = sup[0].ast.targets[0].id
+    after = g.reach([b for b, l in g.succ[sup[0].id] if l != "exc"], skip_labels=("exc",))
+    before_store = {n.id for n in g.nodes if any(s_.id in g.reach([n.id], skip_labels=("exc",)) for s_ in stores)}
+    bad = None
+    for cn in g.nodes:
+        if cn.kind != "cond" or cn.id not in after or cn.id not in before_store or cn.id == sup[0].id:
+            continue
+        names = {x.id for x in ast.walk(cn.ast) if isinstance(x, ast.Name)} if cn.ast is not None else set()
+        if flag is not None and names <= {flag}:
+            continue
+        if isinstance(cn.ast, ast.With) or not isinstance(cn.ast, ast.expr):
+            continue
+        # a test that can send control to the exit without the store
+        for lab in ("T", "F"):
+            side = g.reach([b for b, l in g.succ[cn.id] if l == lab], avoid=[s_.id for s_ in stores], skip_labels=("exc",))
+            if g.exit.id in side or any(x.kind == "return" and x.id in side for x in g.nodes):
+                bad = cn
+    site = "%s:%s %s" % (m.rel, stores[0].line, q)
+    if bad is not None:
+        r.violation(m.rel, q, "`%s` before `%s`" % (bad.label[:50], stores[0].label[:40]), "after the delegate found the record, the replacement of "
+                    "the record and the correction of the total depend on another test: a file that is reported again with a size that "
+                    "fails it (smaller, equal) keeps its old size in the books, the total stays too high and a later file is expired "
+                    "although the real total is within the limit", line=bad.line)
+    else:
+        r.ok(site, "once the delegate reports an existing record, the fresh record replaces it and self.active_size is corrected on every path")
+    r.guard(1)
+    return r
+
+
 def rules(repo=None):
-    return [lambda: r7_moved_file_counted_once(repo), lambda: r6_scan_agrees_with_event_filter(repo), lambda: r1_only_tracked_paths_deleted(repo), lambda: r2_accounting_pairs_with_mutation(repo),
+    return [lambda: r9_restat_replaces_the_record(repo), lambda: r8_events_batches_and_rescan(repo), lambda: r7_moved_file_counted_once(repo), lambda: r6_scan_agrees_with_event_filter(repo), lambda: r1_only_tracked_paths_deleted(repo), lambda: r2_accounting_pairs_with_mutation(repo),
             lambda: r3_oldest_first_and_owners(repo), lambda: r4_limits_reestablished(repo), lambda: r5_growth_rechecks_the_limit(repo)]
 
 
@@ -848,7 +1021,13 @@ EXPLANATION = (
     'method of the event handler (flat views: a listing made in a helper is judged where it is used) is used only as the '
     'iterable of a comprehension filtered by <handler>._match_path(path, True). Does NOT decide that the deque insertion '
     'keeps time order. R7: on the CFG of on_moved no call that tracks event.dest_path is reachable before the call that '
-    'un-tracks event.src_path (a moved file is never counted twice while the limits are re-established).')
+    'un-tracks event.src_path (a moved file is never counted twice while the limits are re-established). R8: created / '
+    'deleted / modified events hand event.src_path to add_files / remove_files / modify_files unconditionally, each batch'
+    ' loop hands every record to its hook (no filter but `is not None`, no break), and the re-scan after an observer '
+    'restart removes exactly A - B, adds a set covering B - A inside B and re-examines a set covering A & B (A tracked, B'
+    " on disk; set expressions evaluated by truth table). R9: in the size mixin's modify hook, once the delegate has "
+    'reported an existing record, the replacement of the record and the correction of self.active_size are reached on '
+    'every path - no other test (a size comparison) may send control to the exit first.')
 TECHNIQUE = ('Python ast; path-sensitive product analysis of bookkeeping mutations vs returned flag; owner tables for queue/record mutators; MRO/`super()` delegation')
 ASSUMPTIONS = ["watchdog delivers events only for paths under the scheduled watch", "deque.remove raises when the element is absent"]
 FILES = [RB, "python/digital_rf/list_drf.py", "python/digital_rf/watchdog_drf.py"]
